@@ -17,7 +17,10 @@ import (
 
 var rewriteOps = []string{"reindent", "comments", "rename", "blanklines", "crlf",
 	// added by the checklist audit: more layouts of the same token sequence
-	"whitespace", "edges", "cr"}
+	"whitespace", "edges", "cr",
+	// seventh seed batch: one physical line longer than the 64 KiB a bufio.Scanner takes by default (a line
+	// comment of 66-70 thousand characters put where a line ends)
+	"longline"}
 
 type tok struct {
 	typ  int
@@ -234,6 +237,19 @@ func rewriteWith(op, text string, pick func(n int) int) string {
 			for len(toks) > 0 && toks[len(toks)-1].typ == parser.JavaLexerWS {
 				toks = toks[:len(toks)-1]
 			}
+		}
+	case "longline":
+		var gaps []int
+		for i := range toks {
+			if toks[i].typ == parser.JavaLexerWS && strings.Contains(toks[i].text, "\n") {
+				gaps = append(gaps, i)
+			}
+		}
+		if len(gaps) > 0 {
+			i := gaps[pick(len(gaps))]
+			n := 66000 + 1000*pick(5)
+			k := strings.Index(toks[i].text, "\n")
+			toks[i].text = toks[i].text[:k] + " // " + strings.Repeat("long line ", n/10) + toks[i].text[k:]
 		}
 	case "cr":
 		// line ends of old Mac files
